@@ -134,6 +134,14 @@ void exec_logfmt(const Plan &p, RunOut *out) {
         else if (ro.reports) violation("C15", "cut_reported", "file cut at byte %zu (a torn tail): reader reports corruption (%d calls, %zu bytes) although nothing but the tail is missing", cut, ro.reports, ro.dropped);
       }
     }
+    // physical fragment headers (for damage that starts exactly at a header)
+    std::vector<size_t> phys;
+    for (size_t q = 0; q + ref::LOG_HEADER <= N;) {
+      size_t rem = ref::LOG_BLOCK - q % ref::LOG_BLOCK;
+      if (rem < ref::LOG_HEADER) { q += rem; continue; }
+      phys.push_back(q);
+      q += ref::LOG_HEADER + ((unsigned char)expect[q + 4] | ((size_t)(unsigned char)expect[q + 5] << 8));
+    }
     // ---- stored-byte damage
     if (!failed() && N > 0) {
       int nd = (int)p.geti("damages", 60);
@@ -143,8 +151,15 @@ void exec_logfmt(const Plan &p, RunOut *out) {
         if (r.chance(0.45) && !clean.records.empty()) { auto &rec = clean.records[r.below(clean.records.size())]; off = std::min(N - 1, rec.start + (size_t)r.below(7)); } // header bytes
         else off = (size_t)r.below(N);
         size_t ds = off, de = off + 1;
-        int kind = (int)r.below(5);
+        int kind = (int)r.below(6);
         const char *kname;
+        if (kind == 5) { // multi-byte: zeros from a physical fragment header to the end of its block
+          if (phys.empty()) continue;
+          off = phys[r.below(phys.size())];
+          ds = off; de = std::min(N, (off / ref::LOG_BLOCK + 1) * ref::LOG_BLOCK);
+          for (size_t q = ds; q < de; q++) d[q] = 0;
+          kname = "zeros to end of block";
+        } else
         switch (kind) {
           case 0: d[off] = (char)(d[off] ^ (1 << r.below(8))); kname = "bit flip"; break;
           case 1: d[off] = 0; kname = "byte=0x00"; break;
